@@ -109,7 +109,7 @@ def _run_crate(scratch, crate, obs, results, jobs, log):
             r.reason = "harness not found in the compiled crate (lost anchor)"
             continue
         r.time_s = h.get("duration_ms", 0) / 1000.0
-        st = cb.get(o.full_harness, {}).get("cbmc_stats", {})
+        st = (cb.get(o.full_harness) or {}).get("cbmc_stats") or {}
         r.solver_s = float(st.get("runtime_decision_procedure_s", 0) or 0)
         checks = h.get("checks", [])
         ncov_ok = ncov = 0
